@@ -45,17 +45,41 @@ Theorem c32_entity_numeric_partial : forall v : str,
 Proof. exact c32_entity_numeric_partial_lemma. Qed.
 Print Assumptions c32_entity_numeric_partial.
 
-(* find: for every tree whose tags are non-empty and free of '/' (all the parser ever builds, and all
-   trees of c32_tree_partial), every start element, EVERY path string and optional attribute test, the
-   all-matches form returns exactly the elements reachable by the path -- its '/'-separated components
-   name the start element (or the root after a leading "//") and then one child per component -- in
-   document order, and the first-match form returns the first of them. *)
-Theorem c32_find_exact : forall (root cur : el) (a : addr) (path : str) (q : option (str * str)),
-  find_tags_ok root = true -> find_tags_ok cur = true ->
-  find_all (find_fuel path) root cur a path q = reach_path root cur a path q /\
-  find_first (find_fuel path) root cur a path q = hd_error (reach_path root cur a path q).
+(* find (both overloads, every delimiter, attribute filter pointers atag/aval each possibly null): for every
+   tree whose tags are non-empty, free of the delimiter and not beginning with "//" (all trees of
+   c32_tree_partial for the default delimiter, see c32_tree_find_tags), every start element and EVERY path
+   string, the all-matches form returns exactly the elements reachable by the path -- its components name
+   the start element (or the root after a leading "//") and then one child per component -- that pass the
+   filter, in document order, and the first-match form returns the first of them. *)
+Theorem c32_find_exact : forall (root cur : el) (a : addr) (path : str) (d : byte) (q : filt),
+  find_tags_ok d root = true -> find_tags_ok d cur = true ->
+  find_all (find_fuel path) root cur a path d q = reach_path root cur a path d q /\
+  find_first (find_fuel path) root cur a path d q = hd_error (reach_path root cur a path d q).
 Proof. exact c32_find_exact_lemma. Qed.
 Print Assumptions c32_find_exact.
+
+(* The attribute filter is exact: with `matched' the path-matched elements (= the unfiltered find-all),
+   the filtered find-all is `matched' filtered by "has attribute atag with a value EQUAL to aval" (attr_ok;
+   no filter unless both are given), in the same order, and the filtered find-first is its head. *)
+Theorem c32_find_filter : forall (root cur : el) (a : addr) (path : str) (d : byte) (q : filt),
+  find_tags_ok d root = true -> find_tags_ok d cur = true ->
+  let matched := reach_path_el root cur a path d in
+  find_all (find_fuel path) root cur a path d (None, None) = map fst matched /\
+  find_all (find_fuel path) root cur a path d q = map fst (filter (fun p => attr_ok q (snd p)) matched) /\
+  find_first (find_fuel path) root cur a path d q =
+    hd_error (map fst (filter (fun p => attr_ok q (snd p)) matched)).
+Proof. exact c32_find_filter_lemma. Qed.
+Print Assumptions c32_find_filter.
+
+(* For ALL trees, paths, delimiters and filters (no hypothesis): find-first is the head of find-all. *)
+Theorem c32_find_first_head : forall (root : el) (d : byte) (q : filt) (fuel : nat) (what : str) (cur : el) (a : addr),
+  find_first fuel root cur a what d q = hd_error (find_all fuel root cur a what d q).
+Proof. exact find_first_hd. Qed.
+Print Assumptions c32_find_first_head.
+
+Theorem c32_tree_find_tags : forall (t : el) (d : nat), tree_ok d t = true -> find_tags_ok 47 t = true.
+Proof. exact tree_ok_find_tags. Qed.
+Print Assumptions c32_tree_find_tags.
 
 (* The tree round trip (stretch goal, fully proved): for EVERY element tree t of any width and any
    depth up to MaxDepth = 128 whose tags are names [A-Za-z0-9_.:-]+ other than "xi:include", whose
@@ -87,13 +111,14 @@ Print Assumptions c32_docpath_refuted.
 Theorem c32_nonvacuous :
   tree_ok 0 sample_tree = true /\
   attrs_ok (el_attrs sample_tree) = true /\
-  find_tags_ok sample_tree = true /\
+  find_tags_ok 47 sample_tree = true /\
   print_el sample_tree =
     bs "<cfg name=""x&quot;y&apos;z&gt;&amp;"" v.1=""&amp;l; &amp;#; &amp;lt""> a&lt;b &amp; c&gt; <item id=""1""/><ns:other>&apos;</ns:other><item id=""2"">t<leaf-1/><item/></item></cfg>" /\
   parse_doc (print_el sample_tree) = Ok sample_tree /\
-  find_all (find_fuel (bs "cfg/item")) sample_tree sample_tree [] (bs "cfg/item") None = [[0%nat]; [2%nat]] /\
-  find_all (find_fuel (bs "//cfg/item/item")) sample_tree sample_tree [] (bs "//cfg/item/item") None = [[2%nat; 1%nat]] /\
-  find_first (find_fuel (bs "cfg/item")) sample_tree sample_tree [] (bs "cfg/item") (Some (bs "id", bs "2")) = Some [2%nat].
+  find_all (find_fuel (bs "cfg/item")) sample_tree sample_tree [] (bs "cfg/item") 47 (None, None) = [[0%nat]; [2%nat]] /\
+  find_all (find_fuel (bs "//cfg/item/item")) sample_tree sample_tree [] (bs "//cfg/item/item") 47 (None, None) = [[2%nat; 1%nat]] /\
+  find_first (find_fuel (bs "cfg/item")) sample_tree sample_tree [] (bs "cfg/item") 47 (Some (bs "id"), Some (bs "2")) = Some [2%nat] /\
+  find_all (find_fuel (bs "cfg/item")) sample_tree sample_tree [] (bs "cfg/item") 47 (Some (bs "id"), Some (bs "")) = [].
 Proof. exact c32_nonvacuous_lemma. Qed.
 Print Assumptions c32_nonvacuous.
 
